@@ -513,7 +513,7 @@ func init() {
 		TimeoutQuick: 10 * time.Minute, TimeoutThorough: 60 * time.Minute,
 		Build: func(c *Ctx) []core.Workload {
 			r := c.Run
-			r.Rule = "one provider instance with a host-derived issuer (from the Host header, or - every other round - from the Forwarded header while all clients share one upstream Host) serves N = 16 / 32 / 64 concurrent clients (GOMAXPROCS 2 / 4 / 16), each running a random mix of SSO, callback (pending and completed), logout, attribute query, metadata and certificate requests for its own sessions, service provider, user and Host, with Gosched / microsecond-millisecond delays injected inside every storage call and at the start of ResponseWriter.Write (a slow connection); the binary is built with -race. Monitors: (1) every DATA RACE report of the race detector with repo frames; (2) every canary token (client number in request IDs, RelayState, consumer URLs, entity IDs, Host, user attributes) found in a fully decoded reply must be the requesting client's, and what is persisted must be the client's own; (3) every Response / Assertion / metadata ID seen in the run is an xs:ID and pairwise distinct. The concurrent workloads of C06/C07 (six clients of three hosts), C08 (one request submitted twice, both held inside persist) and C07 (aborted neighbour) run once more in this race-detector build; the storage's user records are compared with their registered state after every round. Evidence lists max in-flight requests and distinct interleaving signatures of the storage log. Evaluations = requests served; distinct = distinct interleaving signatures (the sequence of other requests' storage operations observed between a request's first and last storage event)."
+			r.Rule = "one provider instance with a host-derived issuer (from the Host header, or - every other round - from the Forwarded header while all clients share one upstream Host) serves N = 16 / 32 / 64 concurrent clients (GOMAXPROCS 2 / 4 / 16), each running a random mix of SSO, callback (pending and completed), logout, attribute query, metadata and certificate requests for its own sessions, service provider, user and Host, with Gosched / microsecond-millisecond delays injected inside every storage call and at the start of ResponseWriter.Write (a slow connection); the binary is built with -race. Monitors: (1) every DATA RACE report of the race detector with repo frames; (2) every canary token (client number in request IDs, RelayState, consumer URLs, entity IDs, Host, user attributes) found in a fully decoded reply must be the requesting client's, and what is persisted must be the client's own; (3) every Response / Assertion / metadata ID seen in the run is an xs:ID and pairwise distinct. The concurrent workloads of C06/C07 (six clients of three hosts), C08 (one request submitted twice, both held inside persist), C07 (aborted neighbour) and C16 (first requests of a fresh registration all at once) run once more in this race-detector build; the storage's user records are compared with their registered state after every round. Evidence lists max in-flight requests and distinct interleaving signatures of the storage log. Evaluations = requests served; distinct = distinct interleaving signatures (the sequence of other requests' storage operations observed between a request's first and last storage event)."
 			r.Require("requests", int64(c.Pick(3000, 100000)))
 			r.Require("max_in_flight", 4)
 			r.Require("distinct_interleaving_signatures", 100)
@@ -531,6 +531,7 @@ func init() {
 				}},
 				{Name: "concurrent_duplicates", N: c.Pick(16, 160), Fn: c08ConcurrentDuplicates},
 				{Name: "aborted_neighbour", N: c.Pick(12, 120), Fn: c07AbortedNeighbour},
+				{Name: "concurrent_first_use", N: c.Pick(10, 100), Fn: c16ConcurrentFirstUse},
 				{Name: "entropy_fault", N: c.Pick(2, 10), Workers: 1, Fn: c15Entropy},
 			}
 		},
